@@ -66,7 +66,7 @@ def run_C11(ctx):
         "the specification's context table (spec/Lang.tla) is an independent transcription of the JSight API 0.3 table",
     ]
     # M + G: complete graph, all action properties; the harness replays every edge.
-    r = ctx.tlc("MC_C11", timeout=600)
+    r = ctx.tlc("MC_C11", timeout=600, coverage=True)
     res = ctx.vh("c11-replay", r.out)
     if res["cases"] != r.generated - 1:
         raise MachineryError("emitted %d edges but TLC generated %d states" % (res["cases"], r.generated))
@@ -108,7 +108,7 @@ def run_C13(ctx):
                        "the specification's run to end of file on exactly that tape. Non-trivial = distinct (outcome, error class, lexeme shape, tape length).")
     ctx.assumptions += ["the keyword list of spec/Lang.tla is an independent transcription of the JSight API 0.3 keywords",
                         "a body start directly behind a keyword is judged by jsight-schema-core (outcome 'oracle': lexeme prefix compared)"]
-    r = ctx.tlc("MC_C13", timeout=600)
+    r = ctx.tlc("MC_C13", timeout=600, coverage=True)
     res = ctx.vh("scan-replay", r.out, env={"VH_DISTINCT": "len"})
     if res["cases"] == 0 or res.get("counters", {}).get("tables-compared") != 1:
         raise MachineryError("C13: nothing replayed or keyword tables not compared")
@@ -202,7 +202,7 @@ def run_C10(ctx):
     res2 = ctx.vh_isolated("c10-replay", r2.out, chunk=400, timeout=120, sig_prefix="c10")
     ctx.absorb(res2, "G:c10-replay(cycles)")
     # beyond the length bound: random behaviours of the same specification (documents of up to 12 tokens)
-    rsim = ctx.tlc("MC_C10", cfg="MC_C10_sim.cfg", simulate=40 if ctx.quick else 2000, depth=13, seed=ctx.seed, label="MC_C10(simulate)", timeout=3300)
+    rsim = ctx.tlc("MC_C10", cfg="MC_C10_sim.cfg", simulate=40 if ctx.quick else 400, depth=13, seed=ctx.seed, label="MC_C10(simulate)", timeout=3300)
     ressim = ctx.vh_isolated("c10-replay", rsim.out, chunk=4000, timeout=900, sig_prefix="c10")
     ctx.absorb(ressim, "G:c10-replay(simulated documents of up to 12 tokens)")
     # nesting shapes: a leaf macro pasted from a middle and a top macro, on the top level of their bodies and among the children
@@ -385,6 +385,9 @@ def run_C05(ctx):
                       {"kind": "c05-trace", "record": tr.depth})
     else:
         ctx.cov["traces_validated_against_impl"] += rec["extra"]["logged"]
+    # the same invariants on accepted skeletons with unusual values (paths, parameter names, JSON-RPC names, tags)
+    xo = ctx.vh("sweep", "c05", "odd:%d:%d" % (ctx.seed, 8000 if ctx.quick else 300000), timeout=3000)
+    ctx.absorb(dict(xo, nontrivial=xo.get("extra", {}).get("accepted", 0)), "V:sweep-c05(skeletons with unusual values)")
     tp2 = os.path.join(ctx.scratch, "c5", "trace_c05.ndjson")
     os.makedirs(os.path.dirname(tp2))
     ctx.vh("corpus-skeletons", REPO, tp2, "corrupt")
@@ -499,6 +502,9 @@ def _sweep_more(ctx, checks, label):
     r2 = ctx.tlc("MC_C01types", cfg="MC_C01types_quick.cfg", timeout=1800)
     x2 = ctx.vh("sweep", checks, "types:" + r2.out, timeout=1800)
     ctx.absorb(dict(x2, nontrivial=x2.get("extra", {}).get("accepted", 0)), "G:sweep-%s(type graphs)" % label)
+    # well-formed skeletons whose slots hold unusual values (paths of '.', '{}', '{@t}', non-ASCII segments, JSON-RPC names, codes ...)
+    x3 = ctx.vh("sweep", checks, "odd:%d:%d" % (ctx.seed, 6000 if ctx.quick else 200000), timeout=3000)
+    ctx.absorb(dict(x3, nontrivial=x3.get("extra", {}).get("accepted", 0)), "V:sweep-%s(skeletons with unusual values)" % label)
 
 
 def run_C04(ctx):
@@ -610,7 +616,7 @@ def run_C18(ctx):
                        "Trace_C18.tla against the digest of the same call run alone; every report of the race detector is a violation. Non-trivial = rounds x phases.")
     ctx.assumptions += ["real schedules cannot be forced without hooks in the dependency: replay is statistical (rounds x goroutines with start barriers, GOMAXPROCS = all cores)",
                         "the race detector is the observer for the 'no data race' clause"]
-    ctx.tlc("Conc", cfg="Conc_ok.cfg", timeout=600, label="Conc(ok)")
+    ctx.tlc("Conc", cfg="Conc_ok.cfg", timeout=600, label="Conc(ok)", coverage=True, zero_ok=("Skip",))
     for cfg, inv in (("Conc_unlockedpool.cfg", "Sequential"), ("Conc_fastpath.cfg", "NoPartialContent")):
         r = ctx.tlc("Conc", cfg=cfg, timeout=600, label="Conc(negative:%s)" % cfg, allow_violation=True)
         if inv not in r.violated:
